@@ -66,12 +66,15 @@ func (b *Builder) CondEdges() []CondEdge {
 			continue
 		}
 		lit := b.Of(ifi.Cond, ifi)
+		// a condition computed as !x (tagless switch cases, stored booleans): the positive literal is x on the other edge
+		s0, s1 := blk.Succs[0], blk.Succs[1]
 		for lit.Op == "un" && lit.Name == "!" {
 			lit = Negate(lit)
+			s0, s1 = s1, s0
 		}
 		out = append(out,
-			CondEdge{Edge{blk, blk.Succs[0]}, ifi, lit, true},
-			CondEdge{Edge{blk, blk.Succs[1]}, ifi, Negate(lit), false})
+			CondEdge{Edge{blk, s0}, ifi, lit, s0 == blk.Succs[0]},
+			CondEdge{Edge{blk, s1}, ifi, Negate(lit), s1 == blk.Succs[0]})
 	}
 	return out
 }
